@@ -2,6 +2,8 @@
 // lean/UtapModel/Drv/C02.lean.  Line protocol (tab separated):
 //   P <text>    parse_XTA(text, builder, newxta=true, S_EXPRESSION) -> kind tree | REJECT <msg> | SEMERR <msg> <tree>
 //   Q <text>    additionally: str() of the tree, re-parse, equal(), second str()   (used by C03)
+//   E <text>    parse_XTA(text, builder, newxta=true, S_EXPRESSION_LIST): a comma list -> kind tree with its COMMA nodes
+//   X <context> <text>   the expression (contexts decl ... update2) or the comma list (contexts list-*) inside a whole model
 #include "common.hpp"
 #include "libparser.h"
 #include "utap/statement.h"
@@ -70,6 +72,8 @@ int f2(int u, int v) { return u; }
 int f3(int u, int v, int w) { return u; }
 )";
 
+static const char* CTX_DECLS_XML = CTX_DECLS;    // (no character of the block needs escaping in XML)
+
 static std::string classify_errors(Document& doc, std::string& sem)
 {
     std::string syn;
@@ -95,13 +99,33 @@ static std::string in_context(const std::string& ctx, const std::string& text)
     if (ctx == "guard") labels = " guard " + text + ";";
     if (ctx == "update") labels = " assign " + text + ";";
     if (ctx == "update2") labels = " assign a = 1, " + text + ";";
+    // every place of the grammar that takes a comma list (`ExprList`): the client gets the whole list as one tree of COMMA nodes
+    if (ctx == "list-update") labels = " assign " + text + ";";
+    if (ctx == "list-for-init") decl += "void hh() { for (" + text + "; a < 3; a++) { } }\n";
+    if (ctx == "list-for-cond") decl += "void hh() { for (a = 0; " + text + "; a++) { } }\n";
+    if (ctx == "list-for-step") decl += "void hh() { for (a = 0; a < 3; " + text + ") { } }\n";
+    if (ctx == "list-while") decl += "void hh() { while (" + text + ") { } }\n";
+    if (ctx == "list-do-while") decl += "void hh() { do { } while (" + text + "); }\n";
+    if (ctx == "list-if") decl += "void hh() { if (" + text + ") { } }\n";
+    if (ctx == "list-before") decl += "before_update { " + text + " }\n";
+    if (ctx == "list-after") decl += "after_update { " + text + " }\n";
     proc = "process Q() { state s0" + inv + "; init s0; trans s0 -> s0 {" + labels + " }; }\nsystem Q;\n";
     std::string src = decl + proc;
     Document doc;
     DocumentBuilder builder(doc);
     std::string sem;
     try {
-        parse_XTA(src.c_str(), &builder, true);
+        if (ctx == "list-xml-assignment") {
+            // the same list as the text of an <label kind="assignment"> (XMLReader hands it to the parser as S_ASSIGN)
+            std::string esc;
+            for (char ch : text) esc += ch == '&' ? "&amp;" : ch == '<' ? "&lt;" : ch == '>' ? "&gt;" : std::string(1, ch);
+            std::string xml = "<?xml version=\"1.0\" encoding=\"utf-8\"?>\n<nta><declaration>" + std::string(CTX_DECLS_XML) +
+                              "</declaration><template><name>Q</name><location id=\"id0\"><name>s0</name></location><init ref=\"id0\"/>"
+                              "<transition><source ref=\"id0\"/><target ref=\"id0\"/><label kind=\"assignment\">" + esc +
+                              "</label></transition></template><system>system Q;</system></nta>";
+            parse_XML_buffer(xml.c_str(), &builder, true);
+        } else
+            parse_XTA(src.c_str(), &builder, true);
     } catch (std::exception& ex) {
         return std::string("EXCEPTION ") + ex.what();
     }
@@ -116,8 +140,25 @@ static std::string in_context(const std::string& ctx, const std::string& text)
                 for (auto& st : *f.body)
                     if (auto* r = dynamic_cast<ReturnStatement*>(st.get())) e = r->value;
         if (ctx == "arg" && !e.empty() && e.get_size() == 2) e = e[1];
+    } else if (ctx == "list-before") {
+        e = doc.get_before_update();
+    } else if (ctx == "list-after") {
+        e = doc.get_after_update();
+    } else if (ctx.rfind("list-", 0) == 0 && ctx != "list-update" && ctx != "list-xml-assignment") {
+        for (auto& f : doc.get_globals().functions)
+            if (f.uid.get_name() == "hh" && f.body)
+                for (auto& st : *f.body) {
+                    if (auto* r = dynamic_cast<ForStatement*>(st.get()))
+                        e = ctx == "list-for-init" ? r->init : ctx == "list-for-cond" ? r->cond : r->step;
+                    else if (auto* w = dynamic_cast<WhileStatement*>(st.get())) e = w->cond;
+                    else if (auto* d = dynamic_cast<DoWhileStatement*>(st.get())) e = d->cond;
+                    else if (auto* i = dynamic_cast<IfStatement*>(st.get())) e = i->cond;
+                }
     } else {
+        if (doc.get_templates().empty()) return "NOTREE";
         auto& t = doc.get_templates().front();
+        if (ctx == "list-update" || ctx == "list-xml-assignment") e = t.edges.empty() ? expression_t() : t.edges.front().assign;
+        else
         if (ctx == "inv") e = t.locations.front().invariant;
         else if (ctx == "guard") e = t.edges.front().guard;
         else if (ctx == "update") e = t.edges.front().assign;
@@ -154,7 +195,7 @@ int main(int argc, char** argv)
         std::string out;
         try {
             vh::ExprGrabber g(doc);
-            parse_XTA(text.c_str(), &g, true, S_EXPRESSION, "");
+            parse_XTA(text.c_str(), &g, true, op == 'E' ? S_EXPRESSION_LIST : S_EXPRESSION, "");
             std::string syn, sem;
             for (auto& er : doc.get_errors()) {
                 if (er.msg.find("syntax_error") != std::string::npos || er.msg.find("$Unknown_symbol") != std::string::npos ||
